@@ -521,7 +521,7 @@ func (e *Env) ghostVal(g *GhostDecl) SVal {
 	vc := e.vc
 	name := "GH." + g.Name
 	if g.Key == "" {
-		vt := e.parseType(g.Val)
+		_, _, vt := e.ghostSorts(g)
 		srt := "Int"
 		if vt != nil {
 			srt = vc.d.sortOf(vt)
@@ -534,6 +534,11 @@ func (e *Env) ghostVal(g *GhostDecl) SVal {
 }
 
 func (e *Env) ghostSorts(g *GhostDecl) (ks, vs string, vt types.Type) {
+	if sp := e.scopeOf(g.Pkg); sp != nil {
+		saved := e.pkg
+		e.pkg = sp
+		defer func() { e.pkg = saved }()
+	}
 	kt := e.parseType(g.Key)
 	ks = "Int"
 	if kt != nil {
@@ -1125,6 +1130,11 @@ func (e *Env) evalCall(n *ECall) SVal {
 		v := e.eval(n.Args[0])
 		a := e.evalInt(n.Args[1])
 		return mathBool(fmt.Sprintf("(>= (base (s-arr %s)) %s)", v.t, a))
+	case "freshsince":
+		// freshsince(x, a): the object (pointer, map) x was allocated at or after allocation mark a
+		v := e.eval(n.Args[0])
+		a := e.evalInt(n.Args[1])
+		return mathBool(fmt.Sprintf("(and (>= (base %s) %s) (< (base %s) %s) (= (base %s) %s) (= (kind %s) 0))", v.t, a, v.t, e.cur.alloc, v.t, v.t, v.t))
 	case "offof":
 		v := e.eval(n.Args[0])
 		return mathInt("(s-off " + v.t + ")")
@@ -1820,7 +1830,7 @@ func (e *Env) evalLocs(x Expr) []modLoc {
 		// a pointer-typed name: the whole object it points to; a map: whole map; ghost scalar
 		if g, ok := vc.w.ghosts[n.Name]; ok {
 			if g.Key == "" {
-				srt, _ := e.sortOfTypeString(g.Val)
+				_, srt, _ := e.ghostSorts(g)
 				return []modLoc{{heap: "GH." + g.Name, hsort: srt, ghost: g, whole: true}}
 			}
 			ks, vs, _ := e.ghostSorts(g)
